@@ -9,7 +9,7 @@ COQ_HEADER = """From PV Require Import Lib.Base Model.Qa Corr.C20.
 From Coq Require Import String.
 Open Scope Z_scope."""
 RULE = ("all arrays with <=4 rows, <=2 columns over {0,1,2} (exhaustive in both tiers; thorough adds 5 rows over {0,1}) plus random "
-        "arrays up to 8x3 incl. single row/column, runs of 3+, extreme int64 values; non-trivial = the array holds at least "
+        "arrays up to 8x3 incl. single row/column, runs of 3+, extreme int64 values, large values differing by 1..3 (relative difference < 1e-5); non-trivial = the array holds at least "
         "one repeated row and at least one row that is not repeated; distinct by array contents")
 EXHAUSTIVE = {"quick": ["rows<=4, cols<=2, alphabet {0,1,2}"], "thorough": ["rows<=4, cols<=2, alphabet {0,1,2}", "rows=5, cols<=2, alphabet {0,1}"]}
 ASSUMPTIONS = ["np.lexsort sorts rows (last column primary); equal keys are equal rows, so tie order is immaterial",
@@ -32,6 +32,10 @@ def cases(tier, rng, dist):
         mode = rng.random()
         if mode < 0.15:
             alpha = big
+        elif mode < 0.45:
+            # large values that differ by little in relative terms (ids, timestamps)
+            base = rng.choice([10**5, 10**6, 1700000000, 2**40, -10**9, 2**53])
+            alpha = [base + d for d in range(0, rng.randint(1, 3) + 1)]
         else:
             alpha = list(range(-1, rng.randint(0, 2) + 1))
         pool = [[rng.choice(alpha) for _ in range(nc)] for _ in range(rng.randint(1, 3))]
